@@ -21,7 +21,7 @@ CLIENT_TRUST = ["Model.Client hand-written from diam/sm/client.go (handshake, wa
 
 PROPS = {
     "C01": dict(
-        domains=[("codec", "build", 12000, 150000), ("codec", "decode", 6000, 80000), ("codec", "frame", 2000, 40000)],
+        domains=[("codec", "build", 12000, 150000), ("codec", "decode", 6000, 80000), ("codec", "frame", 2000, 40000), ("dict", "mono", 1500, 15000)],
         relevant=["C01:"],
         theorems=['DV.Props.C01.C01_api_avps', 'DV.Props.C01.C01_api_reserialise', 'DV.Props.C01.C01_api_same_tree', 'DV.Props.C01.C01_api_msg', 'DV.Props.C01.C01_wire_counterexample_v4mapped', 'DV.Props.C01.C01_wire_counterexample_other16', 'DV.Props.C01.C01_wire_counterexample_other4', 'DV.Props.C01.C01_wire_partial', 'DV.Props.C01.C01_wire_reads', 'DV.Props.C01.C01_wire_msg', 'DV.Props.C01.C01_gen'],
         gen_obligations=['Gen.HeaderLength', 'Gen.Vbit', 'Gen.rfc868offset', 'Gen.rfc2030offset', 'Gen.typeIds', 'Gen.hdrLayoutEnc = Gen.hdrLayoutDec', 'Gen.available ⊆ Gen.decoderKeys'],
@@ -36,7 +36,7 @@ PROPS = {
     ),
     "C03": dict(
         domains=[("codec", "decode", 12000, 200000), ("codec", "frame", 4000, 60000), ("codec", "build", 2000, 20000),
-                 ("resource", "claim", 1, 1), ("resource", "nest", 1, 1), ("resource", "retain", 1, 1)],
+                 ("resource", "claim", 1, 1), ("resource", "nest", 1, 1), ("resource", "retain", 1, 1), ("stream", "read", 3000, 30000)],
         thorough_extra=[("resource", "nestdeep", 1, 1)],
         relevant=["C03:"],
         theorems=['DV.Props.C03.C03_avp_nopanic', 'DV.Props.C03.C03_avps_nopanic', 'DV.Props.C03.C03_header_nopanic', 'DV.Props.C03.C03_message_nopanic', 'DV.Props.C03.C03_short_length_rejected', 'DV.Props.C03.C03_pretty_asserts', 'DV.Props.C03.C03_serialize_fits', 'DV.Props.C03.C03_serialize_message_fits', 'DV.Props.C03.C03_gen',
@@ -59,7 +59,7 @@ PROPS = {
         trusted=CODEC_TRUST + ["Model.Stream hand-written from message.go readHeader/readBody and io.ReadFull's contract"],
     ),
     "C07": dict(
-        domains=[("retry", "write", 6000, 100000), ("retry", "exhaustive", 900, 900), ("retry", "conn", 1500, 20000), ("conn", "cwrite", 150, 1500), ("conn", "lw", 200, 2000)],
+        domains=[("retry", "write", 6000, 100000), ("retry", "exhaustive", 900, 900), ("retry", "conn", 1500, 20000), ("conn", "cwrite", 150, 1500), ("conn", "lw", 200, 2000), ("conn", "pipeline", 60, 600)],
         relevant=["C07:"],
         theorems=["DV.Props.C07."+t for t in ["C07_retry","C07_retry_stops","C07_retry_conn","C07_failed_write_is_final","C07_conn_next","C07_whole","C07_exclusive","C07_once_ordered","C07_quiescent","C07_pool_exclusive","C07_pool_double_put_counterexample","C07_pool_gen","C07_gen"]],
         gen_obligations=["Gen.responseWriteLocked","Gen.MessageBufferLength","Gen.responseWriteReturns","Gen.serverResetCalls","Gen.connBufferSources","Gen.poolUsers","Gen.poolPrimitives"],
@@ -108,7 +108,7 @@ PROPS = {
         trusted=CODEC_TRUST,
     ),
     "C08": dict(
-        domains=[("conn", "serve", 500, 6000), ("conn", "multi", 300, 4000), ("conn", "cnall4", 1, 1), ("conn", "accept", 60, 600), ("conn", "burst", 30, 300)],
+        domains=[("conn", "serve", 500, 6000), ("conn", "multi", 300, 4000), ("conn", "cnall4", 1, 1), ("conn", "accept", 60, 600), ("conn", "burst", 30, 300), ("sctp", "serve", 200, 2000)],
         thorough_extra=[("conn", "cnall5", 1, 1)],
         relevant=["C08:"],
         theorems=["DV.Props.C08."+t for t in ["C08_one_at_a_time","C08_next_after_return","C08_order","C08_all_dispatched","C08_frame","C08_enabled","C08_gen"]],
